@@ -24,6 +24,12 @@ def numeval(r, env):
         elif a.kind == 'sym' and a.name == 'pi':
             import math
             sub[i] = C(F(math.pi))
+        elif a.kind == 'sym' and a.name.endswith('semimaj'):
+            # the ellipsoid of the call is not among the sampled inputs: the default one stands for it (the guards looked at do not depend
+            # on which ellipsoid it is beyond the size of the numbers)
+            sub[i] = C(F(6378137))
+        elif a.kind == 'sym' and a.name.endswith('inversef'):
+            sub[i] = C(F(298257222101, 10 ** 9))
         elif a.kind == 'fn':
             v = fn_value(a, env)
             if v is None:
@@ -43,7 +49,16 @@ def numeval(r, env):
         syms_ = dict((i, v) for i, v in sub.items() if alg.TABLE.atoms[i].kind == 'sym')
         r2 = alg.subst(r, fns) if fns else r
         r2 = alg.subst(r2, syms_) if syms_ else r2
-        return r2.as_fraction()
+        fr = r2.as_fraction()
+        if fr is None:
+            # sines and cosines live in the exponents of the normal form: a decimal value is good enough to tell the side of a threshold
+            try:
+                z = alg.evalf(r2, {})
+                if abs(z.imag) <= 1e-9 * max(1.0, abs(z.real)) and z.real == z.real and abs(z.real) != float('inf'):
+                    return F(z.real)
+            except (alg.NotEvaluable, ZeroDivisionError, OverflowError, ValueError):
+                return None
+        return fr
     except ZeroDivisionError:
         return None
 
@@ -51,6 +66,8 @@ def numeval(r, env):
 def fn_value(a, env):
     args = [numeval(x, env) if isinstance(x, (Rat, Bool)) else None for x in a.args]
     n = a.name
+    if n == 'def' and len(args) == 1:
+        return args[0]
     if n in ('lt', 'le', 'eq', 'ne', 'gt', 'ge') and len(args) == 2 and None not in args:
         l, r = args
         return F(1 if {'lt': l < r, 'le': l <= r, 'eq': l == r, 'ne': l != r, 'gt': l > r, 'ge': l >= r}[n] else 0)
@@ -77,6 +94,14 @@ def fn_value(a, env):
         try:
             return F(getattr(math, n)(float(args[0])))
         except (ValueError, OverflowError):
+            return None
+    if n == 'atan2' and len(args) == 2 and None not in args:
+        import math
+        return F(math.atan2(float(args[0]), float(args[1])))
+    if n == 'pow' and len(args) == 2 and None not in args:
+        try:
+            return F(float(args[0]) ** float(args[1]))
+        except (ValueError, OverflowError, ZeroDivisionError, TypeError):
             return None
     if n == 'floordiv' and len(args) == 2 and None not in args and args[1] != 0:
         return F(args[0] // args[1])
@@ -160,6 +185,9 @@ def decide_guard(cond, domain, integer=(), constraint=None, extra_points=None):
             pts.append(t)
             if k + 1 < len(crit):
                 pts.append((t + crit[k + 1]) / 2)
+        if len(crit) <= 3:
+            # no threshold of the condition is affine in this symbol (it enters through sines, roots, ...): quarter points as well
+            pts = sorted(set(pts) | set((pts[k_] + pts[k_ + 1]) / 2 for k_ in range(len(pts) - 1)))
         if extra_points and name in extra_points:
             pts = sorted(set(pts) | set(F(x) for x in extra_points[name] if lo <= F(x) <= hi))
         if name in integer:
@@ -171,6 +199,11 @@ def decide_guard(cond, domain, integer=(), constraint=None, extra_points=None):
         total *= len(grids[n])
     if total > 20000:
         return 'unknown', 'too many pieces (%d)' % total
+    # interior points first: a witness in the middle of the domain says more than one at a pole or at an end of a range (where the decimal
+    # evaluation of a form may itself be ill-conditioned)
+    for n in names:
+        lo_, hi_ = [F(x) for x in domain[n]]
+        grids[n] = [p for p in grids[n] if p not in (lo_, hi_)] + [p for p in grids[n] if p in (lo_, hi_)]
     for combo in itertools.product(*[grids[n] for n in names]):
         if constraint is not None and not constraint(dict(zip(names, combo))):
             # the box is the hull of the domain; the relation between its symbols (an explicit zone near the longitude) cuts it down
